@@ -68,10 +68,13 @@ func (s *Streamer) Stream(ctx context.Context, sendTransaction SendTransactionFu
 		return err.msgf("newMysqlConn fail.")
 	}
 	defer conn.close()
+	// the reader goroutine must not outlive this call, whatever ends it
+	readerCtx, stopReader := context.WithCancel(ctx)
+	defer stopReader()
 	s.sendTransaction = sendTransaction
 	var events <-chan replication.BinlogEvent
 	var pos Position
-	events, err = conn.startDumpFromBinlogPosition(ctx, s.serverID, s.binlogPosition())
+	events, err = conn.startDumpFromBinlogPosition(readerCtx, s.serverID, s.binlogPosition())
 	if err != nil {
 		return err.msgf("startDumpFromBinlogPosition fail in pos: %+v", s.nowPos)
 	}
